@@ -1284,4 +1284,286 @@ theorem reach_steps {w : World} (h : Reach w) : ∀ n, Reach (steps n w)
   | n + 1 => reach_steps (Reach.step h) n
 
 
+/-! ### QOK: what sits in a centre's event queue was published, and the queue is bounded -/
+
+structure QOK (w : World) : Prop where
+  prov : ∀ (c : Nat) (ct : CAttr) (e : Nat) (a : List Nat), w.cs[c]? = some ct → (e, a) ∈ ct.queue →
+    Tok.pubq c e a ∈ w.out ∨ ∃ grew, Tok.gpub e a grew ∈ w.out ∧ c ∈ grew
+  cap : ∀ (c : Nat) (ct : CAttr), w.cs[c]? = some ct → ct.queue.length ≤ queueCap
+
+theorem setQueue_get (cs : List CAttr) (c : Nat) (q : List (Nat × List Nat)) (i : Nat) :
+    (setQueue cs c q)[i]? = if i = c then (cs[c]?).map (fun ct => { ct with queue := q }) else cs[i]? := by
+  unfold setQueue
+  split
+  · rename_i ct hct
+    by_cases hi : i = c
+    · subst hi; simp [hct, List.getElem?_set]
+      have : i < cs.length := by
+        rcases Nat.lt_or_ge i cs.length with h | h
+        · exact h
+        · simp [List.getElem?_eq_none h] at hct
+      simp [this]
+    · simp [hi, List.getElem?_set, Ne.symm hi]
+  · rename_i hnone
+    by_cases hi : i = c
+    · subst hi; simp [hnone]
+    · simp [hi]
+
+theorem setRunning_get (cs : List CAttr) (c : Nat) (r : Bool) (i : Nat) :
+    (setRunning cs c r)[i]? = if i = c then (cs[c]?).map (fun ct => { ct with running := r }) else cs[i]? := by
+  unfold setRunning
+  split
+  · rename_i ct hct
+    by_cases hi : i = c
+    · subst hi; simp [hct, List.getElem?_set]
+      have : i < cs.length := by
+        rcases Nat.lt_or_ge i cs.length with h | h
+        · exact h
+        · simp [List.getElem?_eq_none h] at hct
+      simp [this]
+    · simp [hi, List.getElem?_set, Ne.symm hi]
+  · rename_i hnone
+    by_cases hi : i = c
+    · subst hi; simp [hnone]
+    · simp [hi]
+
+theorem mem_grewOf (cs : List CAttr) (greg : List (Nat × Nat)) (e c : Nat) (ct : CAttr) (hc : cs[c]? = some ct) :
+    c ∈ grewOf cs greg e ↔ (greg.contains (e, c) && decide (ct.queue.length < queueCap)) = true := by
+  have hlt : c < cs.length := by
+    rcases Nat.lt_or_ge c cs.length with h | h
+    · exact h
+    · simp [List.getElem?_eq_none h] at hc
+  obtain ⟨_, hget⟩ := List.getElem?_eq_some_iff.mp hc
+  simp [grewOf, List.mem_filter, hc, hlt, hget]
+
+theorem QOK.of_eq {w w' : World} (h : QOK w) (h1 : w'.cs = w.cs) (h2 : w'.out = w.out) : QOK w' := by
+  refine ⟨?_, ?_⟩
+  · rw [h1, h2]; exact h.prov
+  · rw [h1]; exact h.cap
+
+/-- the queues are untouched (running flags may change), a token is appended -/
+theorem QOK.tok {w w' : World} (h : QOK w) (t : Tok)
+    (h1 : ∀ (c : Nat) (ct' : CAttr), w'.cs[c]? = some ct' → ∃ ct : CAttr, w.cs[c]? = some ct ∧ ct'.queue = ct.queue)
+    (h2 : w'.out = t :: w.out) : QOK w' := by
+  refine ⟨?_, ?_⟩
+  · intro c ct' e a hc hm
+    obtain ⟨ct, hct, hq⟩ := h1 c ct' hc
+    rw [h2]
+    rcases h.prov c ct e a hct (hq ▸ hm) with hp | ⟨grew, hg, hcg⟩
+    · exact Or.inl (List.mem_cons_of_mem _ hp)
+    · exact Or.inr ⟨grew, List.mem_cons_of_mem _ hg, hcg⟩
+  · intro c ct' hc
+    obtain ⟨ct, hct, hq⟩ := h1 c ct' hc
+    rw [hq]; exact h.cap c ct hct
+
+theorem same_queues (w : World) : ∀ (c : Nat) (ct' : CAttr), w.cs[c]? = some ct' → ∃ ct : CAttr, w.cs[c]? = some ct ∧ ct'.queue = ct.queue :=
+  fun _ ct' h => ⟨ct', h, rfl⟩
+
+theorem doSub_q {w : World} (h : QOK w) (c e t : Nat) (g : Bool) : QOK (doSub w c e t g) := by
+  unfold doSub
+  split
+  · simp only []
+    repeat' split
+    all_goals exact h.tok _ (same_queues w) rfl
+  · exact h.tok _ (same_queues w) rfl
+
+theorem removeSub_q {w : World} (h : QOK w) (c e id : Nat) : QOK (removeSub w c e id) := by
+  unfold removeSub
+  simp only []
+  split <;> exact h.tok _ (same_queues w) rfl
+
+theorem doUnsub_q {w : World} (h : QOK w) (c e t : Nat) : QOK (doUnsub w c e t) := by
+  unfold doUnsub
+  repeat' split
+  all_goals first
+    | exact removeSub_q h ..
+    | exact h.tok _ (same_queues w) rfl
+
+theorem doUnsubFn_q {w : World} (h : QOK w) (c e f : Nat) : QOK (doUnsubFn w c e f) := by
+  unfold doUnsubFn
+  repeat' split
+  all_goals first
+    | exact removeSub_q h ..
+    | exact h.tok _ (same_queues w) rfl
+
+theorem openDisp_q {w : World} (h : QOK w) (ct : CAttr) (c e : Nat) (a : List Nat) : QOK (openDisp w ct c e a) := by
+  unfold openDisp
+  simp only []
+  split <;> exact h.tok (.opn w.pubs c e a) (same_queues w) rfl
+
+theorem doPub_q {w : World} (h : QOK w) (c e : Nat) (a : List Nat) : QOK (doPub w c e a) := by
+  unfold doPub
+  split
+  · rename_i ct hct
+    split
+    · split
+      · exact h.tok .blocked (same_queues w) rfl
+      · rename_i hfull
+        have hlen : ct.queue.length < queueCap := by simpa using hfull
+        refine ⟨?_, ?_⟩
+        · intro i cti e' a' hi hm
+          simp only [emit, setQueue_get] at hi
+          simp only [emit]
+          by_cases hic : i = c
+          · subst hic
+            simp only [if_true, hct, Option.map_some, Option.some.injEq] at hi
+            subst hi
+            simp only [List.mem_append, List.mem_cons, List.not_mem_nil, or_false, Prod.mk.injEq] at hm
+            rcases hm with hm | ⟨rfl, rfl⟩
+            · rcases h.prov i ct e' a' hct hm with hp | ⟨grew, hg, hcg⟩
+              · exact Or.inl (List.mem_cons_of_mem _ hp)
+              · exact Or.inr ⟨grew, List.mem_cons_of_mem _ hg, hcg⟩
+            · exact Or.inl List.mem_cons_self
+          · simp only [hic, if_false] at hi
+            rcases h.prov i cti e' a' hi hm with hp | ⟨grew, hg, hcg⟩
+            · exact Or.inl (List.mem_cons_of_mem _ hp)
+            · exact Or.inr ⟨grew, List.mem_cons_of_mem _ hg, hcg⟩
+        · intro i cti hi
+          simp only [emit, setQueue_get] at hi
+          by_cases hic : i = c
+          · subst hic
+            simp only [if_true, hct, Option.map_some, Option.some.injEq] at hi
+            subst hi
+            simp only [List.length_append, List.length_cons, List.length_nil]
+            omega
+          · simp only [hic, if_false] at hi
+            exact h.cap i cti hi
+    · split
+      · exact h.tok .deep (same_queues w) rfl
+      · exact openDisp_q h ..
+  · exact h.tok .bad (same_queues w) rfl
+
+theorem doGpub_q {w : World} (h : QOK w) (e : Nat) (a : List Nat) : QOK (doGpub w e a) := by
+  refine ⟨?_, ?_⟩
+  · intro i cti e' a' hi hm
+    simp only [doGpub, emit, enqAll_get] at hi ⊢
+    cases hci : w.cs[i]? with
+    | none => simp [hci] at hi
+    | some ct =>
+      simp only [hci, Option.map_some, Option.some.injEq] at hi
+      split at hi
+      · rename_i hcond
+        subst hi
+        simp only [List.mem_append, List.mem_cons, List.not_mem_nil, or_false, Prod.mk.injEq] at hm
+        rcases hm with hm | ⟨rfl, rfl⟩
+        · rcases h.prov i ct e' a' hci hm with hp | ⟨grew, hg, hcg⟩
+          · exact Or.inl (List.mem_cons_of_mem _ hp)
+          · exact Or.inr ⟨grew, List.mem_cons_of_mem _ hg, hcg⟩
+        · exact Or.inr ⟨_, List.mem_cons_self, (mem_grewOf w.cs w.greg e' i ct hci).mpr hcond⟩
+      · subst hi
+        rcases h.prov i ct e' a' hci hm with hp | ⟨grew, hg, hcg⟩
+        · exact Or.inl (List.mem_cons_of_mem _ hp)
+        · exact Or.inr ⟨grew, List.mem_cons_of_mem _ hg, hcg⟩
+  · intro i cti hi
+    simp only [doGpub, emit, enqAll_get] at hi
+    cases hci : w.cs[i]? with
+    | none => simp [hci] at hi
+    | some ct =>
+      simp only [hci, Option.map_some, Option.some.injEq] at hi
+      split at hi
+      · rename_i hcond
+        subst hi
+        simp only [Bool.and_eq_true, decide_eq_true_eq] at hcond
+        simp only [List.length_append, List.length_cons, List.length_nil]
+        omega
+      · subst hi; exact h.cap i ct hci
+
+theorem doClear_q {w : World} (h : QOK w) (c : Nat) : QOK (doClear w c) := by
+  unfold doClear
+  split
+  · refine h.tok _ ?_ rfl
+    intro i cti hi
+    simp only [emit, setRunning_get] at hi
+    by_cases hic : i = c
+    · subst hic
+      cases hci : w.cs[i]? with
+      | none => simp [hci] at hi
+      | some ct =>
+        simp only [if_true, hci, Option.map_some, Option.some.injEq] at hi
+        exact ⟨ct, rfl, by rw [← hi]⟩
+    · simp only [hic, if_false] at hi
+      exact ⟨cti, hi, rfl⟩
+  · exact h.tok _ (same_queues w) rfl
+
+theorem execOp_q {w : World} (h : QOK w) (op : SOp) : QOK (execOp w op) := by
+  cases op <;> simp only [execOp]
+  · exact doSub_q h ..
+  · exact doUnsub_q h ..
+  · exact doUnsubFn_q h ..
+  · exact doPub_q h ..
+  · exact doGpub_q h ..
+  · exact doClear_q h ..
+
+theorem stepDisp_q {w : World} (h : QOK w) (rest : List Frame) (p c e : Nat) (a snap called : List Nat) :
+    QOK (stepDisp w rest p c e a snap called) := by
+  unfold stepDisp closeDisp
+  repeat' split
+  all_goals exact h.tok _ (same_queues w) rfl
+
+/-- dequeuing keeps provenance and the bound -/
+theorem QOK.dequeue {w : World} (h : QOK w) (c : Nat) (ct : CAttr) (x : Nat × List Nat) (q : List (Nat × List Nat))
+    (hc : w.cs[c]? = some ct) (hq : ct.queue = x :: q) (st : List Frame) :
+    QOK { w with cs := setQueue w.cs c q, stack := st } := by
+  refine ⟨?_, ?_⟩
+  · intro i cti e a hi hm
+    simp only [setQueue_get] at hi
+    by_cases hic : i = c
+    · subst hic
+      simp only [if_true, hc, Option.map_some, Option.some.injEq] at hi
+      subst hi
+      exact h.prov i ct e a hc (by rw [hq]; exact List.mem_cons_of_mem _ hm)
+    · simp only [hic, if_false] at hi
+      exact h.prov i cti e a hi hm
+  · intro i cti hi
+    simp only [setQueue_get] at hi
+    by_cases hic : i = c
+    · subst hic
+      simp only [if_true, hc, Option.map_some, Option.some.injEq] at hi
+      subst hi
+      have := h.cap i ct hc
+      rw [hq] at this
+      simp only [List.length_cons] at this ⊢
+      omega
+    · simp only [hic, if_false] at hi
+      exact h.cap i cti hi
+
+theorem stepDrain_q {w : World} (h : QOK w) (rest : List Frame) (c n : Nat) : QOK (stepDrain w rest c n) := by
+  unfold stepDrain
+  split
+  · rename_i n' ct hct
+    split
+    · rename_i e a q hq
+      exact openDisp_q (h.dequeue c ct (e, a) q hct hq _) ..
+    · exact h.of_eq rfl rfl
+  · exact h.of_eq rfl rfl
+
+theorem step_q {w : World} (h : QOK w) : QOK (step w) := by
+  unfold step
+  repeat' split
+  all_goals first
+    | exact h
+    | exact h.of_eq rfl rfl
+    | (refine execOp_q (QOK.of_eq h ?_ ?_) _ <;> rfl)
+    | exact stepDisp_q h ..
+    | exact stepDrain_q h ..
+
+theorem reach_q {w : World} (h : Reach w) : QOK w := by
+  induction h with
+  | init cs tm =>
+    refine ⟨?_, ?_⟩
+    · intro c ct e a hc hm
+      simp only [init, List.getElem?_map] at hc
+      cases hcs : cs[c]? with
+      | none => simp [hcs] at hc
+      | some k => simp [hcs] at hc; subst hc; simp at hm
+    · intro c ct hc
+      simp only [init, List.getElem?_map] at hc
+      cases hcs : cs[c]? with
+      | none => simp [hcs] at hc
+      | some k => simp [hcs] at hc; subst hc; simp
+  | step _ ih => exact step_q ih
+  | call ops g _ _ ih => exact ih.of_eq rfl rfl
+  | drain c n g _ _ ih => exact ih.of_eq rfl rfl
+
+
 end Cell2v.Events
